@@ -144,6 +144,38 @@ pub fn c15_set_clone<const N: usize>() {
     vf::check(tok::balanced(), 302);
 }
 
+/// clone of a container whose element type has NO drop glue but an observable Clone: still one clone per element
+pub fn c15_clone_nodrop<const N: usize>() {
+    use crate::tok::CTok;
+    unsafe { tok::CCLONES = 0; }
+    let mut m: Map<CTok, CTok, N> = empty_map();
+    let mut s: Set<CTok, N> = empty_set();
+    let mut md = Model::<N>::new();
+    let n = vf::any_usize();
+    vf::assume(n <= N);
+    let mut i = 0;
+    while i < N {
+        let (k, v) = (vf::any_u8(), vf::any_u8());
+        if i < n { vf::assume(!md.has(k)); md.insert(k, v, 0, 0); m.insert(CTok::new(k), CTok::new(v)); s.insert(CTok::new(k)); }
+        i += 1;
+    }
+    let c = m.clone();
+    vf::check(unsafe { tok::CCLONES } == 2 * n, 1503);
+    let sc = s.clone();
+    vf::check(unsafe { tok::CCLONES } == 3 * n, 1503);
+    vf::check(c.len() == n && sc.len() == n, 1501);
+    let q = vf::any_u8();
+    match (c.get_key_value(&CTok::new(q)), md.get(q)) {
+        (Some((k, v)), Some(want)) => { vf::reach(1); vf::check(k.gen == 1 && v.gen == 1 && v.key == want, 1503); }
+        (None, None) => { vf::reach(2); }
+        _ => vf::check(false, 1501),
+    }
+    match sc.get(&CTok::new(q)) { Some(k) => vf::check(k.gen == 1 && md.has(q), 1503), None => vf::check(!md.has(q), 1501) }
+    for (k, v) in m.iter() { vf::check(k.gen == 0 && v.gen == 0, 1504); }
+    for k in s.iter() { vf::check(k.gen == 0, 1504); }
+    vf::check(c == m && sc == s, 1502);
+}
+
 // ------------------------------------------------------------------------------------------ C16
 /// source of (key, value) pairs that records how it is consumed
 pub struct PairSrc<const L: usize> { pub items: [Option<(Tok, Tok)>; L], pub pos: usize, pub len: usize, pub pulled: usize, pub slack_lo: usize, pub slack_hi: Option<usize> }
@@ -325,6 +357,7 @@ harnesses! {
     c13_disjoint_tok: [1] [2] [3];
     c15_clone: [0] [1] [2] [3];
     c15_set_clone: [0] [1] [2] [3];
+    c15_clone_nodrop: [1] [2] [3];
     c16_from_iter: [0, 1] [1, 2] [2, 3] [3, 4] [2, 4];
     c16_from_array: [0] [1] [2] [3];
     c16_set_from: [1, 2] [2, 3] [3, 4];
@@ -336,6 +369,7 @@ harnesses! {
     c13_disjoint_tok: [4] [5];
     c15_clone: [4] [5];
     c15_set_clone: [4] [5];
+    c15_clone_nodrop: [4] [5];
     c16_from_iter: [3, 5] [4, 5];
     c16_from_array: [4] [5];
     c16_set_from: [4, 5];
